@@ -246,7 +246,11 @@ impl<'c> HasScript<'c> for DrvOwn<'c> {
 }
 
 pub struct ImpRun {
+    /// the trace up to and including the first error item (what is compared with the model)
     pub lines: Vec<String>,
+    /// the same trace continued for a few more `next()` calls after the first error item (only for the
+    /// oracles whose property does not stop at the first error: driver protocol, `changed` flags)
+    pub post_lines: Vec<String>,
     pub script: Vec<Resp>,
     /// epochs of (bound, value) pairs, split at every resetRandom
     pub epochs: Vec<Vec<(i64, i64)>>,
@@ -358,13 +362,23 @@ fn iterate<'c, D: TestDriver<Error = DrvError> + HasScript<'c>>(
     };
     lines.borrow_mut().push("ctor ok".to_string());
     let mut k = 0;
+    // number of error items seen; after the first one the trace is continued behind a `posterr` marker
+    let mut post = 0usize;
     loop {
+        if post > 4 {
+            return false;
+        }
         if k >= cap {
             lines.borrow_mut().push(format!("item {k} cap"));
             return false;
         }
         let item = catch_unwind(AssertUnwindSafe(|| it.next()));
         match item {
+            Err(_) if post > 0 => {
+                // what happens after an error item is outside C10's quantifier: recorded, not judged
+                lines.borrow_mut().push(format!("# panic after an error item: {}", take_panic()));
+                return false;
+            }
             Err(_) => {
                 lines.borrow_mut().push(format!("item {k} panic {}", take_panic()));
                 return true;
@@ -381,12 +395,22 @@ fn iterate<'c, D: TestDriver<Error = DrvError> + HasScript<'c>>(
             }
             Ok(Some(Err(IterationError::Driver(e)))) => {
                 lines.borrow_mut().push(format!("item {k} err driver:{}", e.0));
-                return false;
+                if post == 0 {
+                    lines.borrow_mut().push("posterr".to_string());
+                }
+                post += 1;
+                k += 1;
+                continue;
             }
             Ok(Some(Err(IterationError::Runtime(e)))) => {
                 lines.borrow_mut().push(format!("item {k} err runtime"));
                 lines.borrow_mut().push(format!("# {e}"));
-                return false;
+                if post == 0 {
+                    lines.borrow_mut().push("posterr".to_string());
+                }
+                post += 1;
+                k += 1;
+                continue;
             }
             Ok(Some(Ok(row))) => {
                 let vars = match catch_unwind(AssertUnwindSafe(|| it.vars())) {
@@ -453,12 +477,15 @@ pub fn run_dynamic(case: &Case, src: &str) -> ImpRun {
     }
     let rng_log = verif_hooks::take_rng_log();
     let epochs = epochs_of(&rng_log);
-    let mut lines = lines.borrow().clone();
+    let all = lines.borrow().clone();
+    let cut = all.iter().position(|l| l == "posterr").unwrap_or(all.len());
+    let post_lines: Vec<String> = all.iter().filter(|l| *l != "posterr").cloned().collect();
+    let mut lines: Vec<String> = all[..cut].to_vec();
     if lines.last().map(|l| l.starts_with("item ") && l.contains(" none")).unwrap_or(false) {
         let draws = rng_log.iter().filter(|e| matches!(e, RngEvent::Draw(_))).count();
         lines.push(format!("rng draws={draws}"));
     }
-    ImpRun { lines, script, epochs, rng_log, panicked }
+    ImpRun { lines, post_lines, script, epochs, rng_log, panicked }
 }
 
 /// static run (`try_iter_static`) of an already bound test
